@@ -494,7 +494,8 @@ def classify(designs, res=None, nchunks=None):
     if n == 0:
         return [], {}
     ncpu = os.cpu_count() or 4
-    nchunks = nchunks or max(1, min(ncpu, (n + 39) // 40))
+    # a TLC process costs ~1-2 CPU-seconds before its first state and ~25 ms per design after that
+    nchunks = nchunks or max(1, min(ncpu, (n + 199) // 200))
     size = (n + nchunks - 1) // nchunks
     chunks = [(i, designs[i:i + size]) for i in range(0, n, size)]
     tmp = tempfile.mkdtemp(prefix="elabtlc_")
@@ -924,6 +925,29 @@ def overlap_net_shapes():
         D.conn(D.obj(a, va), i, 1)
         D.conn(D.obj(a, vb), i, 1)
         out.append(D)
+    # ... through a wire / from a constant / the two slices connected to each other
+    D = Design([("s", None)], "fixed/net-overlapping-members/const")
+    a, w = D.sig(1, "a", "wire", "b4"), D.obj(D.sig(1, "w", "wire", "b2"))
+    D.conn(D.obj(a, "[0:2]"), w, 1); D.conn(w, D.obj(a, "[1:3]"), 1); D.conn(w, D.const(1, "b2", 2), 1)
+    out.append(D)
+    D = Design([("s", None)], "fixed/net-overlapping-members/direct")
+    a = D.sig(1, "a", "wire", "b4")
+    D.conn(D.obj(a, "[0:2]"), D.obj(a, "[1:3]"), 1); D.conn(D.obj(D.sig(1, "i", "in", "b2")), D.obj(a, "[0:2]"), 1)
+    out.append(D)
+    # ... one of the two is written by a block (two candidate writers), nobody drives the net (no writer)
+    for drv in ("blk", "none"):
+        D = Design([("s", None)], "fixed/net-overlapping-members/" + drv)
+        a, w = D.sig(1, "a", "wire", "b4"), D.obj(D.sig(1, "w", "wire", "b2"))
+        D.conn(D.obj(a, "[0:2]"), w, 1); D.conn(w, D.obj(a, "[1:3]"), 1)
+        if drv == "blk":
+            D.blk("u", 1, [(D.obj(a, "[0:2]"), "@=")])
+        out.append(D)
+    # a member overlaps the net's own writer (the statement is silent): c[0:2] <- i ; c[0:4] - w - c[2:6]
+    D = Design([("s", None)], "fixed/net-member-overlaps-own-writer")
+    c, w = D.sig(1, "c", "wire", "b8"), D.obj(D.sig(1, "w", "wire", "b4"))
+    D.conn(D.obj(D.sig(1, "i", "in", "b2")), D.obj(c, "[0:2]"), 1)
+    D.conn(D.obj(c, "[0:4]"), w, 1); D.conn(w, D.obj(c, "[2:6]"), 1)
+    out.append(D)
     # adjacent / disjoint views of one signal driven by two nets (legal), overlapping ones (illegal)
     for ty, va, vb, tag in (("b4", "[0:2]", "[2:4]", "adjacent"), ("b8", "[0:4]", "[4:8]", "adjacent"),
                             ("St", ".f", ".g.p", "disjoint"), ("b4", "[0:2]", "[1:3]", "overlapping"),
